@@ -282,6 +282,9 @@ class Evaluator:
             raise Broken("unmodelled unary operator %s" % op)
         if k == "bin":
             op = e["op"]
+            if op == ",":
+                self.eval(e["lhs"], env, this)
+                return self.eval(e["rhs"], env, this)
             if op == "&&":
                 return self.truth(self.eval(e["lhs"], env, this)) and self.truth(self.eval(e["rhs"], env, this))
             if op == "||":
